@@ -51,8 +51,9 @@ def step (st : St) (line : String) : IO St := do
     let c := st.cfgLine
     let L := toNat! ((kv c "L").getD ""); let kind := TraceDrv.kindOf ((kv c "kind").getD ""); let ex := (kv c "extrap") == some "1"; let fgs := (kv c "fgs") == some "1"
     let nu1 := toNat! ((kv c "nu1").getD ""); let nu2 := toNat! ((kv c "nu2").getD "")
-    let tag := s!"cycle kind={(kv c "kind").getD ""} extrapolated={ex} fgs={fgs} L={L} nu1={nu1} nu2={nu2} strategy={(kv c "strat").getD ""} finest={(st.lvls.getD 0 {}).nr}x{(st.lvls.getD 0 {}).nt}"
-    IO.println s!"SIG concrete kind={(kv c "kind").getD ""} extrap={ex} L={L} nu1={nu1} nu2={nu2} fgs={fgs}"
+    let isFmg := (kv c "fmg") == some "1"; let fmgIt := toNat! ((kv c "fmg_it").getD "0")
+    let tag := (if isFmg then s!"FMG start-up fmg_it={fmgIt} " else "") ++ s!"cycle kind={(kv c "kind").getD ""} extrapolated={ex} fgs={fgs} L={L} nu1={nu1} nu2={nu2} strategy={(kv c "strat").getD ""} finest={(st.lvls.getD 0 {}).nr}x{(st.lvls.getD 0 {}).nt}"
+    IO.println s!"SIG concrete kind={(kv c "kind").getD ""} extrap={ex} L={L} nu1={nu1} nu2={nu2} fgs={fgs} fmg={isFmg} fmg_it={fmgIt}"
     let mut stats := st.stats
     stats ← check stats (st.lvls.size == L) fun _ => s!"{tag}: {st.lvls.size} level records for {L} levels"
     let cfg : Cfg := ⟨L, nu1, nu2⟩
@@ -100,10 +101,10 @@ def step (st : St) (line : String) : IO St := do
           if (a.arr i j).toBits != (b.arr i j).toBits ∨ (a.att i j).toBits != (b.att i j).toBits ∨ (a.art i j).toBits != (b.art i j).toBits
               ∨ (a.det i j).toBits != (b.det i j).toBits ∨ (a.k j).toBits != (b.k j).toBits then builtEq := false; why := s!"level {l} node ({i},{j}): arr {a.arr i j} {b.arr i j} att {a.att i j} {b.att i j} art {a.art i j} {b.art i j} det {a.det i j} {b.det i j} k {a.k j} {b.k j}"
     stats ← check stats builtEq fun _ => s!"{tag}: the hierarchy built inside the model (Build.hier: fresh cache on level 0, sampled caches below) differs from the level data evaluated at each level's own nodes ({why})"
-    let yF := Concrete.cycleL HB cfg kind ex fgs (mem 0.0 sizes x0F st.rhsF)
+    let yF := if isFmg then Concrete.startL HB cfg true kind fmgIt ex fgs (mem 0.0 sizes x0F st.rhsF) else Concrete.cycleL HB cfg kind ex fgs (mem 0.0 sizes x0F st.rhsF)
     -- exact rationals only for the smallest cases: the numerators grow with every line solve, a whole cycle on three levels or
     -- with several smoothing steps is out of reach; the double execution covers all cases
-    let exact := L == 2 ∧ nu1 + nu2 ≤ 2 ∧ (st.lvls.getD 0 {}).nr * (st.lvls.getD 0 {}).nt ≤ 160
+    let exact := !isFmg ∧ L == 2 ∧ nu1 + nu2 ≤ 2 ∧ (st.lvls.getD 0 {}).nr * (st.lvls.getD 0 {}).nt ≤ 160
     let yQ := if exact then Concrete.cycleL HQ cfg kind ex fgs (mem 0 sizes x0Q st.rhsQ) else yF.map fun a => a.map floatToRat
     let mut bitEq := 0
     let mut worst := st.worst
